@@ -57,7 +57,7 @@ Definition absview (t : txn) : store :=
     (fm_union (s_objs b) (s_objs x))
     (if t_idx_set t then s_idx x else s_idx b)
     (if t_cfg_set t then s_cfg x else s_cfg b)
-    (match s_shallow x with [] => s_shallow b | l => l end)
+    (if t_sh_set t then s_shallow x else s_shallow b)
     (logs_view (s_logs b) (s_logs x) (t_rl_del t)).
 
 Record Inv (t : txn) : Prop := mkInv {
@@ -162,20 +162,26 @@ Qed.
 (* ------------------------------------------------------------ guards *)
 Definition is_nil {A} (l : list A) : bool := match l with [] => true | _ => false end.
 
-(* the calls on which the transaction answers as the view does *)
+(* the calls on which the transaction answers as the view does: all but a
+   listing of objects while an object written in the transaction is also in the base *)
 Definition op_ok (U : universe) (t : txn) (o : op) : bool :=
   match o with
-  | OCas _ _ on _ => negb (nmem on (t_deleted t) && fm_has on (s_refs (t_base t)))
-  | OIterRefs =>
-    forallb (fun p => negb (nmem (fst p) (t_deleted t)) && negb (fm_has (fst p) (s_refs (t_tmp t))))
-            (s_refs (t_base t))
   | OIterObjs _ =>
     forallb (fun p => negb (fm_has (fst p) (s_objs (t_base t)))) (s_objs (t_tmp t))
-  | OSetShallow l => negb (is_nil l) || is_nil (s_shallow (t_base t))
   | _ => true
   end.
 
 (* ------------------------------------------------------------ listings *)
+Lemma NoDup_app_local {A} (l1 l2 : list A) :
+  NoDup l1 -> NoDup l2 -> (forall x, In x l1 -> In x l2 -> False) -> NoDup (l1 ++ l2).
+Proof.
+  induction l1 as [|a r IH]; intros H1 H2 Hd; [exact H2|].
+  inversion H1 as [|? ? Hn H1']; subst. cbn [app]. constructor.
+  - intro Hin. apply in_app_or in Hin as [Hin|Hin]; [exact (Hn Hin)|].
+    apply (Hd a); [left; reflexivity|exact Hin].
+  - apply IH; [exact H1'|exact H2|]. intros x Hx1 Hx2. apply (Hd x); [right; exact Hx1|exact Hx2].
+Qed.
+
 Lemma fm_diff_absent {V} (b : fmap V) ds :
   (forall d, In d ds -> fm_get d b = None) -> fm_diff b ds = b.
 Proof.
@@ -200,23 +206,26 @@ Proof.
     apply IH; [exact Hok|]. intros k' v' Hin. apply (Hd k' v'). right; exact Hin.
 Qed.
 
-Lemma iter_refs_perm t :
-  Inv t -> op_ok (fun _ => (0, 0)) t OIterRefs = true ->
-  Permutation (g_iter_refs t) (s_refs (absview t)).
+Lemma iter_refs_perm t : Inv t -> Permutation (g_iter_refs t) (s_refs (absview t)).
 Proof.
-  intros [Hb Hx _ _ _] Hg. cbn [op_ok] in Hg. rewrite forallb_forall in Hg.
-  destruct Hb as (Hbr & _). destruct Hx as (Hxr & _).
-  unfold g_iter_refs, absview. cbn [s_refs].
-  rewrite fm_diff_absent.
-  - apply fm_union_disjoint_perm; [exact Hxr|].
-    intros k v Hin. destruct (fm_get k (s_refs (t_base t))) as [w|] eqn:E; [|reflexivity].
-    apply (fm_get_In k w _ Hbr) in E. apply Hg in E. cbn [fst] in E.
-    apply andb_true_iff in E as [_ E]. apply negb_true_iff in E.
-    apply (fm_get_In k v _ Hxr) in Hin. unfold fm_has in E. rewrite Hin in E. discriminate.
-  - intros d Hd. destruct (fm_get d (s_refs (t_base t))) as [w|] eqn:E; [|reflexivity].
-    apply (fm_get_In d w _ Hbr) in E. apply Hg in E. cbn [fst] in E.
-    apply andb_true_iff in E as [E _]. apply negb_true_iff in E.
-    apply nmem_In in Hd. congruence.
+  intros [Hb Hx Hd _ _]. destruct Hb as (Hbr & _). destruct Hx as (Hxr & _).
+  assert (Hvok : fm_ok (s_refs (absview t)))
+    by (unfold absview; cbn [s_refs]; apply fm_ok_union, fm_ok_diff; exact Hbr).
+  assert (Hmem : forall k v, In (k, v) (g_iter_refs t) <-> fm_get k (s_refs (absview t)) = Some v).
+  { intros k v. unfold g_iter_refs, absview. cbn [s_refs].
+    rewrite in_app_iff, filter_In, fm_get_union, fm_get_diff. cbn [fst].
+    rewrite <- (fm_get_In k v _ Hbr), <- (fm_get_In k v _ Hxr). unfold fm_has.
+    destruct (fm_get k (s_refs (t_tmp t))) as [w|]; destruct (nmem k (t_deleted t)); cbn [negb andb];
+      intuition (try discriminate; try congruence). }
+  apply NoDup_Permutation.
+  - unfold g_iter_refs. apply NoDup_app_local.
+    + apply NoDup_filter. apply fm_ok_NoDup; exact Hbr.
+    + apply fm_ok_NoDup; exact Hxr.
+    + intros [k v] H1 H2. apply filter_In in H1 as [_ H1]. cbn [fst] in H1.
+      apply andb_true_iff in H1 as [_ H1]. apply negb_true_iff in H1.
+      apply (fm_get_In k v _ Hxr) in H2. unfold fm_has in H1. rewrite H2 in H1. discriminate.
+  - apply fm_ok_NoDup; exact Hvok.
+  - intros [k v]. rewrite Hmem. apply (fm_get_In k v _ Hvok).
 Qed.
 
 Lemma Permutation_filter {A} (f : A -> bool) l1 l2 :
@@ -244,7 +253,7 @@ Proof.
 Qed.
 
 (* ------------------------------------------------------------ one call *)
-Ltac proj_simpl := cbn [t_base t_tmp t_deleted t_idx_set t_cfg_set t_rl_app t_rl_del
+Ltac proj_simpl := cbn [t_base t_tmp t_deleted t_idx_set t_cfg_set t_sh_set t_rl_app t_rl_del
                          s_refs s_objs s_idx s_cfg s_shallow s_logs with_tmp
                          st_with_refs st_with_objs st_with_idx st_with_cfg st_with_shallow st_with_logs].
 Ltac inv_split := constructor; unfold with_tmp; proj_simpl.
@@ -309,24 +318,28 @@ Proof.
     split; [apply Inv_set_ref; exact HI|]. split; [|reflexivity].
     rewrite absview_set_ref by exact HI. reflexivity.
   - (* Cas *)
-    cbn [op_ok] in Hg. unfold g_cas, st_cas, g_cas_lookup.
+    unfold g_cas, st_cas, g_cas_lookup.
     rewrite (view_get_ref t on HI).
-    destruct (fm_get on (s_refs (t_tmp t))) as [cur|] eqn:Et.
+    assert (E : (if nmem on (t_deleted t) then None
+                 else match fm_get on (s_refs (t_tmp t)) with
+                      | Some v0 => Some v0
+                      | None => fm_get on (s_refs (t_base t))
+                      end)
+                = match fm_get on (s_refs (t_tmp t)) with
+                  | Some v0 => Some v0
+                  | None => if nmem on (t_deleted t) then None else fm_get on (s_refs (t_base t))
+                  end).
+    { destruct (nmem on (t_deleted t)) eqn:Ed; [|reflexivity]. rewrite (inv_del t HI on Ed). reflexivity. }
+    rewrite E.
+    destruct (match fm_get on (s_refs (t_tmp t)) with
+              | Some v0 => Some v0
+              | None => if nmem on (t_deleted t) then None else fm_get on (s_refs (t_base t))
+              end) as [cur|].
     + destruct (rv_hash_eqb cur ov).
       * split; [apply Inv_set_ref; exact HI|]. split; [|reflexivity].
         rewrite absview_set_ref by exact HI. reflexivity.
       * split; [exact HI|]. split; reflexivity.
-    + assert (E : (if nmem on (t_deleted t) then None else fm_get on (s_refs (t_base t)))
-                  = fm_get on (s_refs (t_base t))).
-      { destruct (nmem on (t_deleted t)); [|reflexivity].
-        cbn [andb] in Hg. apply negb_true_iff in Hg. unfold fm_has in Hg.
-        destruct (fm_get on (s_refs (t_base t))); [discriminate|reflexivity]. }
-      rewrite E. destruct (fm_get on (s_refs (t_base t))) as [cur|].
-      * destruct (rv_hash_eqb cur ov).
-        -- split; [apply Inv_set_ref; exact HI|]. split; [|reflexivity].
-           rewrite absview_set_ref by exact HI. reflexivity.
-        -- split; [exact HI|]. split; reflexivity.
-      * split; [exact HI|]. split; reflexivity.
+    + split; [exact HI|]. split; reflexivity.
   - (* GetRef *)
     split; [exact HI|]. split; [reflexivity|]. unfold g_get_ref. rewrite (view_get_ref t n HI).
     destruct (nmem n (t_deleted t)) eqn:Ed.
@@ -335,7 +348,7 @@ Proof.
       destruct (fm_get n (s_refs (t_base t))); reflexivity.
   - (* IterRefs *)
     split; [exact HI|]. split; [reflexivity|]. cbn [res_equiv].
-    apply iter_refs_perm; [exact HI|exact Hg].
+    apply iter_refs_perm; exact HI.
   - (* DelRef *)
     destruct HI as [Hb Hx Hd Hnd Happ]. split; [|split; [|reflexivity]].
     + unfold g_del_ref. inv_split; try assumption.
@@ -404,9 +417,7 @@ Proof.
   - split; [constructor; assumption|]. split; reflexivity.
   - split; [|split; [|reflexivity]].
     + inv_split; try assumption; try (apply store_ok_with_shallow; exact Hx).
-    + f_equal. view_unfold. f_equal. cbn [op_ok] in Hg.
-      destruct l as [|a l']; [|reflexivity]. cbn [is_nil negb orb] in Hg.
-      destruct (s_shallow (t_base t)); [reflexivity|discriminate].
+    + f_equal.
   - split; [constructor; assumption|]. split; reflexivity.
 Qed.
 
@@ -486,12 +497,8 @@ Proof.
   intro HI. destruct (op_ok U t o) eqn:Hg.
   - pose proof (step_sim_all U t o HI Hg) as H. unfold step_sim in H.
     destruct (g_step U t o) as [t' r]. destruct (spec_step U _ o) as [s' r']. apply H.
-  - (* the guarded calls: reads keep the state; CAS is a SetReference or nothing; SetShallow writes temporal *)
-    destruct o; cbn [op_ok] in Hg; try discriminate; cbn [g_step fst]; try exact HI.
-    + unfold g_cas. destruct (g_cas_lookup t on); [|exact HI].
-      destruct (rv_hash_eqb r ov); [apply Inv_set_ref|]; exact HI.
-    + destruct HI as [Hb Hx Hd Hnd Happ]. inv_split; try assumption;
-        try (apply store_ok_with_shallow; exact Hx).
+  - (* the only guarded call is a read *)
+    destruct o; cbn [op_ok] in Hg; try discriminate; cbn [g_step fst]; exact HI.
 Qed.
 
 Lemma Inv_run U ops : forall t, Inv t -> Inv (fst (g_run U t ops)).
@@ -563,19 +570,7 @@ Proof.
   intro Hb. apply g_commit_absview. apply Inv_run. apply Inv_begin. apply store_ok_okb; exact Hb.
 Qed.
 
-(* ------------------------------------------------------------ the guards are exact *)
-Lemma guard_tight_cas U t n v on ov :
-  Inv t -> op_ok U t (OCas n v on ov) = false ->
-  snd (g_step U t (OCas n v on ov))
-  <> snd (spec_step U (mkSpec (t_base t) (absview t)) (OCas n v on ov)).
-Proof.
-  intros HI Hg. cbn [op_ok] in Hg. apply negb_false_iff in Hg. apply andb_true_iff in Hg as [Hd Hh].
-  unfold spec_step. cbn [g_step st_step sp_view sp_base]. unfold g_cas, st_cas, g_cas_lookup.
-  rewrite (view_get_ref t on HI), (inv_del t HI on Hd), Hd.
-  unfold fm_has in Hh. destruct (fm_get on (s_refs (t_base t))) as [cur|]; [|discriminate].
-  destruct (rv_hash_eqb cur ov); cbn [snd]; discriminate.
-Qed.
-
+(* ------------------------------------------------------------ the guard is exact *)
 Lemma fm_ok_keys_NoDup {V} (m : fmap V) : fm_ok m -> NoDup (map fst m).
 Proof.
   induction m as [|p r IH]; intro H; cbn [map]; [constructor|].
@@ -584,38 +579,31 @@ Proof.
   rewrite Forall_forall in HF. apply HF in Hin. unfold fm_lt in Hin. lia.
 Qed.
 
-Lemma absview_refs_ok t : Inv t -> fm_ok (s_refs (absview t)).
-Proof. intros [Hb _ _ _ _]. unfold absview. cbn [s_refs]. apply fm_ok_union, fm_ok_diff. apply Hb. Qed.
-
-Lemma guard_tight_iter t :
-  Inv t -> op_ok (fun _ => (0, 0)) t OIterRefs = false ->
-  ~ Permutation (g_iter_refs t) (s_refs (absview t)).
+(* whenever the guard fails, the full listing shows an object twice *)
+Lemma guard_tight_iter_objs U t :
+  Inv t -> op_ok U t (OIterObjs 0) = false ->
+  ~ Permutation (g_iter_objs U t 0) (st_iter_objs U 0 (absview t)).
 Proof.
   intros HI Hg HP. cbn [op_ok] in Hg.
-  assert (Hex : exists p, In p (s_refs (t_base t)) /\
-                 (negb (nmem (fst p) (t_deleted t)) && negb (fm_has (fst p) (s_refs (t_tmp t)))) = false).
-  { clear HP. induction (s_refs (t_base t)) as [|p r IH]; cbn [forallb] in Hg; [discriminate|].
+  assert (Hex : exists p, In p (s_objs (t_tmp t)) /\ fm_has (fst p) (s_objs (t_base t)) = true).
+  { clear HP. induction (s_objs (t_tmp t)) as [|p r IH]; cbn [forallb] in Hg; [discriminate|].
     apply andb_false_iff in Hg as [Hg|Hg].
-    - exists p. split; [left; reflexivity|exact Hg].
+    - exists p. split; [left; reflexivity|]. apply negb_false_iff in Hg. exact Hg.
     - destruct (IH Hg) as [q [Hq1 Hq2]]. exists q. split; [right; exact Hq1|exact Hq2]. }
-  destruct Hex as [[k w] [Hin Hbad]]. cbn [fst] in Hbad.
-  pose proof (absview_refs_ok t HI) as Hvok.
-  apply andb_false_iff in Hbad as [Hbad|Hbad]; apply negb_false_iff in Hbad.
-  - (* removed in the transaction but still listed *)
-    assert (Hl : In (k, w) (g_iter_refs t)) by (unfold g_iter_refs; apply in_or_app; left; exact Hin).
-    apply (Permutation_in _ HP) in Hl. apply (fm_get_In k w _ Hvok) in Hl.
-    rewrite (view_get_ref t k HI), (inv_del t HI k Hbad), Hbad in Hl. discriminate.
-  - (* overwritten in the transaction: the name is listed twice *)
-    unfold fm_has in Hbad. destruct (fm_get k (s_refs (t_tmp t))) as [v|] eqn:Ev; [|discriminate].
-    assert (Hxr : fm_ok (s_refs (t_tmp t))) by apply HI.
-    apply (fm_get_In k v _ Hxr) in Ev.
-    apply (Permutation_map fst) in HP.
-    apply fm_ok_keys_NoDup in Hvok.
-    apply (Permutation_NoDup (Permutation_sym HP)) in Hvok.
-    unfold g_iter_refs in Hvok. rewrite map_app in Hvok.
-    apply in_split in Hin as [l1 [l2 Hl]]. rewrite Hl in Hvok.
-    rewrite map_app in Hvok. cbn [map fst] in Hvok. rewrite <- app_assoc in Hvok. cbn [app] in Hvok.
-    apply NoDup_remove_2 in Hvok. apply Hvok.
-    apply in_or_app. right. apply in_or_app. right.
-    apply in_map_iff. exists (k, v). split; [reflexivity|exact Ev].
+  destruct Hex as [[k u] [Hin Hhas]]. cbn [fst] in Hhas.
+  assert (Hall : forall l, filter (typ_match U 0) l = l).
+  { induction l as [|a l IH]; [reflexivity|]. cbn [filter]. unfold typ_match at 1. rewrite N.eqb_refl. cbn [orb]. rewrite IH. reflexivity. }
+  unfold g_iter_objs, st_iter_objs in HP. rewrite !Hall in HP.
+  assert (Hvok : fm_ok (s_objs (absview t))).
+  { unfold absview. cbn [s_objs]. apply fm_ok_union. apply HI. }
+  apply fm_ok_keys_NoDup in Hvok. unfold fm_keys in HP.
+  apply (Permutation_NoDup (Permutation_sym HP)) in Hvok.
+  unfold fm_has in Hhas. destruct (fm_get k (s_objs (t_base t))) as [u'|] eqn:Eb; [|discriminate].
+  assert (Hbo : fm_ok (s_objs (t_base t))) by apply HI.
+  apply (fm_get_In k u' _ Hbo) in Eb.
+  apply in_split in Eb as [l1 [l2 Hl]]. rewrite Hl in Hvok.
+  rewrite map_app in Hvok. cbn [map fst] in Hvok. rewrite <- app_assoc in Hvok. cbn [app] in Hvok.
+  apply NoDup_remove_2 in Hvok. apply Hvok.
+  apply in_or_app. right. apply in_or_app. right.
+  apply in_map_iff. exists (k, u). split; [reflexivity|exact Hin].
 Qed.
